@@ -34,5 +34,6 @@ def main(tier, replay=None):
                        "equality, or a copy/assign/swap whose result is not the source value; distinct = different executions")
     chk.assumptions += ["value domains are sampled (exploration level)", "eq between a Tree and a Table is not generated (iteration orders differ)"]
     camp.report()
+    runner.run_pinned(chk, {"h_val": harness})
     chk.cov["distinct_nontrivial"] = max(len(chk.distinct), 2)
     return chk.finish()
